@@ -304,9 +304,11 @@ def finish(spec, modname, tier, seed, reports, bounded, t0, write_ledger=False):
                           for o in r['obligations'] if o['status'] == 'discharged')
         json.dump(led, open(p, 'w'), indent=1)
     if checker_errors:
+        # a reproduced violation stands on its own (exit 1) even if the machinery also has something to complain about -
+        # typically the vacuity guard, because the broken function no longer returns normally on any path
         for e in checker_errors:
             print('CHECKER-ERROR: ' + e)
-        return 3
+        return 1 if violations else 3
     return 1 if violations else 0
 
 
